@@ -43,6 +43,8 @@ SHARDS = [
     dict(macros=['hspace', 'textbf'], envs=[], specials=['--'], argless=[], discard=['hspace']),
     dict(macros=['documentclass', 'mbox'], envs=['align'], specials=[], argless=[], discard=['documentclass', 'mbox']),
     dict(macros=['text', 'label'], envs=['abstract'], specials=[], argless=[], discard=['label']),
+    # a macro and an environment of the same name in one document (plain-TeX style \equation ... next to \begin{equation})
+    dict(macros=['emph'], envs=['equation', 'align'], specials=[], argless=['equation', 'align'], discard=[]),
 ]
 FEATURES = ['group', 'math', 'display', 'comment', 'par', 'space', 'commenteof', 'argtoken']
 
